@@ -107,6 +107,7 @@ pub fn c11_to_prayer_time() {
 }
 
 // =====================================================================================
+// NOT ADMITTED (BTreeMap construction does not finish under CBMC in 30 min; not registered, kept for the record):
 // C05 / C12 / C20 — wiring of prayer_times_dt: what reaches which stage, and the 7-entry result
 pub static mut W_JD_GMT: u64 = 0;
 pub static mut W_JD_RET: u64 = 0;
@@ -138,16 +139,23 @@ fn rec_weather(w: Weather) {
 }
 pub fn adj_ext_wiring_spy(_p: &Params, _t: &TopAstroDay, w: Weather) -> VMap<Prayer, Result<PrayerHour, ()>> {
     rec_weather(w);
+    // concrete map (keeps the BTreeMap construction of prayer_times_dt concrete for CBMC): Asr invalid, Isha flagged
     let mut h = VMap::new();
-    for k in [Prayer::Fajr, Prayer::Shurooq, Prayer::Dhuhr, Prayer::Asr, Prayer::Maghrib, Prayer::Isha] {
-        let v: Result<PrayerHour, ()> = if kani::any() { Ok(PrayerHour { value: 12., extreme: kani::any() }) } else { Err(()) };
-        h.insert(k, v);
-    }
+    h.insert(Prayer::Fajr, Ok(PrayerHour { value: 5., extreme: false }));
+    h.insert(Prayer::Shurooq, Ok(PrayerHour { value: 6., extreme: false }));
+    h.insert(Prayer::Dhuhr, Ok(PrayerHour { value: 12., extreme: false }));
+    h.insert(Prayer::Asr, Err(()));
+    h.insert(Prayer::Maghrib, Ok(PrayerHour { value: 18., extreme: false }));
+    h.insert(Prayer::Isha, Ok(PrayerHour { value: 19., extreme: true }));
     h
 }
+pub static mut W_IMSAAK: (bool, bool) = (false, false);
 pub fn imsaak_wiring_spy(_p: &Params, _t: &TopAstroDay, w: Weather) -> Result<PrayerTime, ()> {
     rec_weather(w);
-    Err(())
+    let ok: bool = kani::any();
+    let ext: bool = kani::any();
+    unsafe { W_IMSAAK = (ok, ext) };
+    if ok { Ok(PrayerTime { time: chrono::NaiveTime::from_hms_opt(4, 5, 6).unwrap(), extreme: ext }) } else { Err(()) }
 }
 
 #[kani::proof]
@@ -184,9 +192,18 @@ pub fn c20_dt_wiring() {
     }
     assert!(out.len() == 7, "C05 every call returns exactly seven entries");
     assert!(out.contains_key(&Prayer::Imsaak) && out.contains_key(&Prayer::Fajr) && out.contains_key(&Prayer::Isha), "C05 Imsaak, Fajr ... Isha are all present");
+    // the Imsaak entry is exactly what get_imsaak produced (not re-derived from the other entries)
+    let (iok, iext) = unsafe { W_IMSAAK };
+    match out[&Prayer::Imsaak] {
+        Ok(pt) => assert!(iok && pt.extreme == iext && pt.time == chrono::NaiveTime::from_hms_opt(4, 5, 6).unwrap(), "C03/C12 the Imsaak entry is the one computed by the Imsaak stage"),
+        Err(()) => assert!(!iok, "C03/C12 the Imsaak entry is the one computed by the Imsaak stage"),
+    }
+    // validity and flags of the six hours are carried over
+    assert!(out[&Prayer::Asr].is_err() && matches!(out[&Prayer::Isha], Ok(pt) if pt.extreme) && matches!(out[&Prayer::Fajr], Ok(pt) if !pt.extreme), "C11 validity and the extreme flag are unaffected by rendering");
 }
 
 // =====================================================================================
+// NOT ADMITTED (two-run equivalence did not close in 25 min; not registered, kept for the record):
 // C12 — hour_to_time consults the offset map only at the prayer's own key
 #[kani::proof]
 #[kani::unwind(8)]
@@ -210,6 +227,7 @@ pub fn c12_offset_own_key_only() {
 }
 
 // =====================================================================================
+// NOT ADMITTED (same reason; not registered, kept for the record):
 // C14 — the range API is the single-date API applied to exactly the dates of the range.
 // BOUNDED (labelled): spans of -2..=3 days; the single-date API is replaced by a spy.
 pub static mut DT_DATES: [i32; 4] = [0; 4];
